@@ -815,7 +815,9 @@ void DOMLSSerializerImpl::processNode(const DOMNode* const nodeToWrite, int leve
                 // check if the namespace for the current node is already defined
                 const XMLCh* prefix = nodeToWrite->getPrefix();
                 const XMLCh* uri = nodeToWrite->getNamespaceURI();
-                if((uri && uri[0]) || ((prefix==0 || prefix[0]==0) && isDefaultNamespacePrefixDeclared()))
+                // (the "xml" prefix is bound implicitly and is never declared)
+                if(!XMLString::equals(uri, XMLUni::fgXMLURIName) &&
+                   ((uri && uri[0]) || ((prefix==0 || prefix[0]==0) && isDefaultNamespacePrefixDeclared())))
                 {
                     if(prefix==0 || prefix[0]==0)
                         prefix=XMLUni::fgZeroLenString;
@@ -826,7 +828,7 @@ void DOMLSSerializerImpl::processNode(const DOMNode* const nodeToWrite, int leve
                             namespaceMap=new (fMemoryManager) RefHashTableOf<XMLCh>(12, false, fMemoryManager);
                             fNamespaceStack->addElement(namespaceMap);
                         }
-                        namespaceMap->put((void*)prefix,(XMLCh*)uri);
+                        namespaceMap->put((void*)prefix,(XMLCh*)(uri ? uri : XMLUni::fgZeroLenString));
                         *fFormatter  << XMLFormatter::NoEscapes
                                      << chSpace << XMLUni::fgXMLNSString;
                         if(!XMLString::equals(prefix,XMLUni::fgZeroLenString))
@@ -888,7 +890,7 @@ void DOMLSSerializerImpl::processNode(const DOMNode* const nodeToWrite, int leve
                                 nsPrefix = XMLUni::fgZeroLenString;
                             if(namespaceMap->containsKey((void*)nsPrefix))
                                 continue;
-                            namespaceMap->put((void*)attribute->getLocalName(),(XMLCh*)attribute->getNodeValue());
+                            namespaceMap->put((void*)nsPrefix,(XMLCh*)attribute->getNodeValue());
                         }
                         else if(!XMLString::equals(ns, XMLUni::fgXMLURIName))
                         {
